@@ -1,7 +1,7 @@
 """C-shape rules: R-SHD (shadowing, scan accumulators), R-VAR (variant families), R-EFF (effects, re-entrancy),
 R-ALLOC (allocation/use agreement), R-PATH instances on the C DBA routines, n-D stride form."""
 from ..cfront import AnalysisError
-from ..ir import fmt, walk_stmts, walk_expr, stmt_exprs, dotted, sub_blocks, orient
+from ..ir import fmt, walk_stmts, walk_expr, stmt_exprs, dotted, sub_blocks, orient, aug_rhs
 from ..symexec import assigned_vars, deep_events, Env
 from .iterspace import paths_increments
 
@@ -720,7 +720,8 @@ def rule_dba_c(ctx, m):
             if fname == 'dtw_dba_matrix':
                 incs = paths_increments(loop.body, 'r_idx')
                 top = [s for s in loop.body if s.k == 'assign' and s.target == ('var', 'r_idx')]
-                ok = len(top) == 1 and top[0].value == ('bin', '+', ('var', 'r_idx'), ('bin', '*', ('var', 'nb_cols'), ('var', 'ndim')))
+                from ..canon import canon_expr
+                ok = len(top) == 1 and top[0].d.get('aug') == '+' and aug_rhs(top[0]) == canon_expr(('bin', '*', ('var', 'nb_cols'), ('var', 'ndim')))
                 ctx.check(ok, 'R-PATH', f.file, fname, 'row offset advance [%s]' % tag,
                           'r_idx must advance by nb_cols*ndim on EVERY iteration of the series loop (masked or not); otherwise later series are read '
                           'from the wrong offset', loop.line)
